@@ -845,6 +845,9 @@ class DataSet:
                                             for inpA, inpB in self.subarrays[self.subarray].corr_products]
                 else:
                     v = v if isinstance(v, slice) else np.asarray(v)
+                    if not isinstance(v, slice) and v.size == 0:
+                        # An empty list becomes a float array, which is not a valid (empty) index
+                        v = v.astype(int)
                     if not isinstance(v, slice) and v.ndim == 2 and v.shape[1] == 2:
                         all_corrprods = self.subarrays[self.subarray].corr_products
                         v = v.tolist()
